@@ -140,6 +140,9 @@ func runC02(c *core.Ctx) *core.Violation {
 		kinds = append(kinds, rc.KStream)
 	}
 	opts := gen.RDBOpts{MaxKeys: 3, MaxDBs: 1, Kinds: kinds, NoMeta: true, NowMs: uint64(epochMs + shiftMs), MaxElem: 3000}
+	if t.Choose(6) == 5 {
+		opts.MaxElem = 70000 // elements around 8 KiB, 16 KiB and 64 KiB (14-bit and 32-bit length forms inside ziplists)
+	}
 	big := t.Chance(10)
 	var file []byte
 	var recs []rc.Record
